@@ -17,7 +17,7 @@ Print Assumptions C15_h264_resync.
 (* the mechanism: bytes buffered from an abandoned fragment are never prepended to a unit that
    begins with its own start-of-fragment marker *)
 Theorem C15_h264_start_fragment_resets : forall avc nri ty fs cs,
-  nri = 0 \/ nri = 32 \/ nri = 64 \/ nri = 96 -> 1 <= ty <= 23 ->
+  nri = 0 \/ nri = 32 \/ nri = 64 \/ nri = 96 \/ nri = 128 \/ nri = 160 \/ nri = 192 \/ nri = 224 -> 1 <= ty <= 23 ->
   fua_rel (Z.lor 28 nri) ty true fs cs -> forall stale,
   depack (mkH264Pkt avc stale) (map own_bytes fs)
   = Ok (mkH264Pkt avc [], packaging avc [] (Z.lor nri ty :: concat cs)).
